@@ -13,6 +13,7 @@ import (
 	"strings"
 	"time"
 
+	"github.com/alibaba/sentinel-golang/logging"
 	"github.com/alibaba/sentinel-golang/util"
 )
 
@@ -142,4 +143,27 @@ func Main(it Interp, args []string) {
 		r = f
 	}
 	Run(it, r, os.Stdout)
+}
+
+type nullLogger struct{}
+
+func (nullLogger) Debug(string, ...interface{})        {}
+func (nullLogger) DebugEnabled() bool                  { return false }
+func (nullLogger) Info(string, ...interface{})         {}
+func (nullLogger) InfoEnabled() bool                   { return false }
+func (nullLogger) Warn(string, ...interface{})         {}
+func (nullLogger) WarnEnabled() bool                   { return false }
+func (nullLogger) Error(error, string, ...interface{}) {}
+func (nullLogger) ErrorEnabled() bool                  { return false }
+
+// Silence replaces sentinel's global logger by one that discards everything, so that stdout carries
+// only op lines.
+func Silence() { _ = logging.ResetGlobalLogger(nullLogger{}) }
+
+// NewClock installs and returns a virtual clock starting at startMs (pick a value after the real wall
+// clock when the package-level inbound node is involved, e.g. 1_900_000_000_000).
+func NewClock(startMs uint64) *Clock {
+	c := &Clock{Ns: startMs * 1e6}
+	Install(c)
+	return c
 }
